@@ -18,22 +18,66 @@ fn main() {
     match args[1].as_str() {
         "arith" => arith::serve(),
         "zst" => {
-            // HashTable<()> holding two distinct entries (inserted under different hashes):
-            // get_many_mut on both must return two results (C15)
-            let mut t: hashbrown::HashTable<(), Ledger> = hashbrown::HashTable::new_in(Ledger);
-            t.insert_unique(1, (), |_| 1);
-            t.insert_unique(2, (), |_| 2);
-            let r = std::panic::catch_unwind(std::panic::AssertUnwindSafe(|| {
-                let got = t.get_many_mut([1, 2], |_, _| true);
-                got.iter().filter(|o| o.is_some()).count()
-            }));
-            match r {
-                Ok(n) => println!("ZST get_many_mut on 2 distinct entries of a table of {} zero-sized elements: {} results", t.len(), n),
-                Err(p) => {
-                    let msg = p.downcast_ref::<&str>().map(|s| s.to_string()).or(p.downcast_ref::<String>().cloned()).unwrap_or("?".into());
-                    println!("ZST get_many_mut on 2 distinct entries of a table of {} zero-sized elements: panicked ({})", t.len(), msg)
+            // C15 for zero-sized elements.  HashTable<()> with n entries inserted under the hashes
+            // 1..=n (distinct tags): a request (hash h, closure true) resolves to the entry
+            // inserted under h.  For every tuple of up to 3 requests: the call must panic exactly
+            // when two requests name the same PRESENT hash, otherwise return Some for present and
+            // None for absent hashes, in request order.
+            let mut bad = 0usize;
+            let mut cases = 0usize;
+            for n in [1u64, 2, 3, 7, 20] {
+                // capacity up front: a zero-sized element cannot be re-hashed to its own hash
+                let mut t: hashbrown::HashTable<(), Ledger> = hashbrown::HashTable::with_capacity_in(32, Ledger);
+                for h in 1..=n {
+                    t.insert_unique(h << 57 | h, (), |_| unreachable!());
+                }
+                let hs: Vec<u64> = (0..=n.min(4) + 1).collect(); // 0 and n+1.. are absent
+                let full = |h: u64| h << 57 | h;
+                let present = |h: u64| h >= 1 && h <= n;
+                let mut tuples: Vec<Vec<u64>> = vec![vec![]];
+                for a in &hs {
+                    tuples.push(vec![*a]);
+                    for b in &hs {
+                        tuples.push(vec![*a, *b]);
+                        for c in &hs {
+                            tuples.push(vec![*a, *b, *c]);
+                        }
+                    }
+                }
+                for tu in tuples {
+                    cases += 1;
+                    let alias = (0..tu.len()).any(|i| (0..i).any(|j| tu[i] == tu[j] && present(tu[i])));
+                    let r = std::panic::catch_unwind(std::panic::AssertUnwindSafe(|| -> Vec<bool> {
+                        match tu.len() {
+                            0 => t.get_many_mut::<0>([], |_, _| true).iter().map(|o| o.is_some()).collect(),
+                            1 => t.get_many_mut([full(tu[0])], |_, _| true).iter().map(|o| o.is_some()).collect(),
+                            2 => t.get_many_mut([full(tu[0]), full(tu[1])], |_, _| true).iter().map(|o| o.is_some()).collect(),
+                            _ => t.get_many_mut([full(tu[0]), full(tu[1]), full(tu[2])], |_, _| true).iter().map(|o| o.is_some()).collect(),
+                        }
+                    }));
+                    let want: Vec<bool> = tu.iter().map(|h| present(*h)).collect();
+                    match r {
+                        Ok(got) => {
+                            if alias {
+                                bad += 1;
+                                println!("ZST get_many_mut on {:?} in a table of {} zero-sized elements: two requests name the same entry but the call returned (two mutable references to one entry)", tu, n);
+                            } else if got != want {
+                                bad += 1;
+                                println!("ZST get_many_mut on {:?} in a table of {} zero-sized elements: results {:?}, expected {:?}", tu, n, got, want);
+                            }
+                        }
+                        Err(p) => {
+                            if !alias {
+                                bad += 1;
+                                let msg = p.downcast_ref::<&str>().map(|s| s.to_string()).or(p.downcast_ref::<String>().cloned()).unwrap_or("?".into());
+                                let distinct = tu.iter().filter(|h| present(**h)).count();
+                                println!("ZST get_many_mut on {} distinct entries {:?} of a table of {} zero-sized elements: panicked ({})", distinct, tu, n, msg);
+                            }
+                        }
+                    }
                 }
             }
+            println!("ZSTSTAT cases={} bad={}", cases, bad);
         }
         "run" => {
             let text = std::fs::read_to_string(&args[2]).expect("script");
